@@ -195,7 +195,7 @@ GROUPS["cnf_token_t0"] = dict(dict(_MODEL, **_SPEC_INJECT), **{
         ("comment_token", {"props": ["C07", "C08", "C04", "C09", "C10"], "cost": 3, "what": "comment: c...LF or c...EOF, then blanks; line accounting"}),
         ("interactive_strict_comment_token", {"props": ["C07", "C08", "C09"], "cost": 3, "what": "solver-log comment line"}),
         ("interactive_skip_line_token", {"props": ["C07", "C08", "C09", "C10"], "cost": 3, "what": "skip unknown line"}),
-        ("newline_token", {"props": ["C07", "C08"], "cost": 2, "what": "newline = LF | CRLF (then blanks), not a lone CR"}),
+        ("newline_token", {"props": ["C07", "C08", "C10"], "cost": 2, "what": "newline = LF | CRLF (then blanks), not a lone CR"}),
         ("interactive_newline_token", {"props": ["C09", "C08", "C07"], "cost": 2, "what": "interactive_newline consumes the newline and requests nothing after it"}),
         ("eof_token", {"props": ["C04", "C07"], "cost": 1, "what": "eof succeeds only at the end of a source that did not fail"}),
         ("interactive_end_of_line_token", {"props": ["C09", "C04", "C07", "C08"], "cost": 2, "what": "interactive_end_of_line = newline | clean eof"}),
@@ -595,6 +595,38 @@ GROUPS["btor2_parser_t2"] = dict(_MODEL, **{
     ],
 })
 
+# BTOR2 T3 probe (NOT part of any check): real Line::write_into -> ghost queue -> real next_line over
+# script-mode stubs (harness/btor2/token_script.rs, rt_t3.rs). Even a comment line does not get
+# through symbolic execution (3-6 GB and growing after 4 minutes per harness, ten harnesses exhaust
+# the machine); kept so that the measurement can be repeated. BTOR2 line structure stays outside C03.
+PROBES = globals().get("PROBES", {})
+PROBES["btor2_t3"] = dict(_MODEL, **{
+    "name": "btor2_t3",
+    "package": "flussab-btor2",
+    "prefix": "parser::verif_t3::",
+    "overlay": [("flussab-btor2/src/token.rs", "script", "harness/btor2/token_script.rs"),
+                ("flussab-btor2/src/parser.rs", "t3", "harness/btor2/rt_t3.rs")],
+    "overlay_extra": _QUEUE["overlay_extra"],
+    "inject": _stub_injects("flussab-btor2/src/token.rs", _BTOR2_TOKEN_SPECS, modpath="verif_script") + _QUEUE["inject"],
+    "append_text": _MODEL["append_text"] + [_SMALL_WRITER],
+    "params": {"quick": {"N": 2, "QCAP": 64}, "thorough": {"N": 2, "QCAP": 64}},
+    "flags": ["--default-unwind", "14"],
+    "rss_gb": 20,
+    "timeout": {"quick": 1500, "thorough": 3000},
+    "harnesses": [
+        ("rt_comment_line", {"props": ["C03"], "cost": 3, "what": "btor2 Line::Comment write_into -> next_line identity"}),
+        ("rt_sort", {"props": ["C03"], "cost": 4, "what": "btor2 sort lines (bitvec width, array domain/codomain) write_into -> next_line identity, any u64 ids, optional symbol/comment"}),
+        ("rt_assignment", {"props": ["C03"], "cost": 4, "what": "btor2 init/next lines: field order sort, state, value"}),
+        ("rt_output", {"props": ["C03"], "cost": 4, "what": "btor2 output/bad/constraint/fair lines"}),
+        ("rt_justice", {"props": ["C03"], "cost": 5, "what": "btor2 justice lines with 1..2 conditions from a parser state with stale buffers"}),
+        ("rt_const", {"props": ["C03"], "cost": 5, "what": "btor2 const/constd/consth (four candidate texts) and zero/one/ones lines; constant text delivered through the parser-owned buffer"}),
+        ("rt_input_state", {"props": ["C03"], "cost": 4, "what": "btor2 input/state lines"}),
+        ("rt_unary", {"props": ["C03"], "cost": 5, "what": "btor2 not / uext / sext / slice lines: every u64 index, order upper then lower"}),
+        ("rt_binary_ternary", {"props": ["C03"], "cost": 5, "what": "btor2 binary (add, concat) and ternary (ite, write) lines: operand order"}),
+        ("reach_btor2_t3", {"kind": "reach", "cost": 4, "what": "vacuity twin"}),
+    ],
+})
+
 def _cnf_family_t2(kind):
     g = dict(GROUPS["cnf_parser_t2"])
     g.update({
@@ -888,9 +920,9 @@ PROPERTIES["C09"] = {
 PROPERTIES["C10"] = {
     "level": "model_checking",
     "groups": ["reader_step"],
-    "claim": "Two links, both SAT-based bounded model checks of real code. (1) Reader (the anchored mechanism): one inductive step of the real request_more from an arbitrary state: the buffer never grows beyond max(old size, cursor' + window + chunk), realign happens iff the cursor is more than two chunks into the buffer (then the cursor returns to 0), shrink at least halves an oversized buffer, no other operation changes the buffer size; by induction the buffer is bounded by the largest look-ahead plus a constant number of chunks, independent of the bytes processed. (2) Largest look-ahead: the tokenizers that scan unbounded items (numbers, words, comments, names) request at most one byte beyond the item itself and consume it at once (ghost high-water mark of requested offsets), so the look-ahead the reader has to hold is bounded by the largest single item, not by what follows it.",
+    "claim": "Two links, both SAT-based bounded model checks of real code. (1) Reader (the anchored mechanism): one inductive step of the real request_more from an arbitrary state: the buffer never grows beyond max(old size, cursor' + window + chunk), realign happens iff the cursor is more than two chunks into the buffer (then the cursor returns to 0), shrink at least halves an oversized buffer, no other operation changes the buffer size; by induction the buffer is bounded by the largest look-ahead plus a constant number of chunks, independent of the bytes processed. (2) Largest look-ahead: the tokenizers that scan unbounded items (numbers, words, comments, names, line ends with their blanks) request at most one byte beyond the item itself and consume it at once (ghost high-water mark of requested offsets), so the look-ahead the reader has to hold is bounded by the largest single item, not by what follows it.",
     "level_note": "Parser-owned buffers (lit_buf, node_buf, ...) are covered only through the T2 harnesses that start from stale buffers (contents = exactly this item); real heap measurement is outside the solver's reach; Vec's amortised growth is trusted.",
-    "functions": ["DeferredReader::request_more", "advance*", "set_*", "cnf::token::{uint, int, word, comment, interactive_skip_line}", "aiger::token::{uint, binary_uint, remaining_line_content}", "btor2::token::{uint, comment_body, symbol_name}"],
+    "functions": ["DeferredReader::request_more", "advance*", "set_*", "cnf::token::{uint, int, word, comment, newline, interactive_skip_line}", "aiger::token::{uint, binary_uint, remaining_line_content}", "btor2::token::{uint, comment_body, symbol_name}"],
     "explanation": "Post-conditions on buf.len() in step_request_more / step_request_more_shrink_region and the cursor-movement harnesses; check_lookahead on the reader model's ghost counter in the token harnesses.",
     "bounds_note": "as C02; token windows N bytes",
     "outside": ["parser-owned buffers beyond 'reset per item'", "heap measurement"],
